@@ -223,7 +223,7 @@ def tlc(module, cfg=None, workers=1, env=None, timeout=1800, simulate=None, dept
             m = re.match(r"Error: Invariant (\S+) is violated", line)
             if m:
                 r.invariant_violated = m.group(1)
-            if "Temporal properties were violated" in line:
+            if "Temporal properties were violated" in line or re.search(r"Temporal property \S+ was violated", line):
                 r.liveness_violated = True
     r.out = "\n".join(tail)
     if "Model checking completed. No error has been found" in r.out or (simulate and rc in (0,)):
